@@ -37,6 +37,9 @@ ASSUMPTIONS = [
     "vf/refodx.py classifies coding objects; MAY exists to keep the oracle sound where the "
     "statement is silent; the evidence reports how many verdicts rested on MAY",
     "a response decoded without knowing the request cannot have its request echo checked",
+    "if two coding objects of ONE service decode M (a short response tolerating trailing bytes "
+    "next to a longer one) the statement does not say which is the interpretation; odxtools "
+    "calls that ambiguous and raises: such services are MAY",
     "request SIDs never coincide with 0x7F or with the response SID (request SID + 0x40) of "
     "another service, as UDS guarantees; such collisions make one byte string a request and a "
     "response at once and the statement does not say how they are told apart",
@@ -102,7 +105,7 @@ def build_layer(idx: int, spec: List[Tuple[str, List[int]]], r: random.Random, n
         sid = first_const_byte(rq)
         pos_names, neg_names = [], []
         rq_len = {"cc": 2, "ccc": 3, "ccv": 3}.get(shape, 0)
-        sharable = [q for q in prs if q["params"][0]["value"] == ((sid or 0) + 0x40) & 0xFF and
+        sharable = [q for q in prs if q["params"][0].get("value") == ((sid or 0) + 0x40) & 0xFF and
                     any(x["p"] == "MATCHING-REQUEST-PARAM" for x in q["params"]) and
                     all(x["req_pos"] + x["len"] <= rq_len for x in q["params"]
                         if x["p"] == "MATCHING-REQUEST-PARAM")]
@@ -133,6 +136,20 @@ def build_layer(idx: int, spec: List[Tuple[str, List[int]]], r: random.Random, n
                 ng["params"].append(p_value("nrc", "u8"))
             ngs.append(ng)
             neg_names.append(ng["name"])
+            if r.random() < 0.5:
+                # a second (and third) negative response with the same prefix, told apart by
+                # the NRC-CONST lists only; the one listed first does not apply to their NRCs
+                rest = [v for v in (0x11, 0x12, 0x31, 0x33)
+                        if kind != "nrc-list" or v not in ng["params"][2]["values"]][:2]
+                ng2 = {"name": f"nr{k}b", "for": rq["name"], "shape": "neg-nrc-list", "feat": {"shape": "neg"},
+                       "params": [u8const("nsid", 0x7F),
+                                  {"p": "MATCHING-REQUEST-PARAM", "name": "rq_sid", "req_pos": 0, "len": 1},
+                                  {"p": "NRC-CONST", "name": "nrc", "byte": None, "bit": None,
+                                   "dct": dct_std("A_UINT32", 8), "values": rest},
+                                  p_value("detail", "u8")]}
+                ngs.append(ng2)
+                # listed before or after the shorter one
+                neg_names.insert(r.randrange(0, 2), ng2["name"])
         if sid is not None and not neg_names and ngs and r.random() < 0.35:
             # a negative response object shared with an earlier service (its request echo then
             # depends on which service it is used for)
@@ -231,6 +248,7 @@ def judge(col: common.Collector, ll: codecrun.LoadedLayer, model: Dict[str, Any]
         # of it takes part in matching
         rq_prefix = ll.ref.const_prefix(rq_model)
         ctx = request if request is not None else rq_prefix
+        n_must = 0
         for kind, m in objs:
             c, vals = classify(ll, m, M, ctx if kind != "rq" else None, len(rq_prefix))
             if c == "MUST" and not only_may:
@@ -238,6 +256,16 @@ def judge(col: common.Collector, ll: codecrun.LoadedLayer, model: Dict[str, Any]
                 must_vals[(s["name"], m["name"])] = vals
             if c in ("MUST", "MAY"):
                 may.add(s["name"])
+                if vals is not None:
+                    n_must += 1  # decodes (possibly leaving trailing bytes)
+        if n_must > 1:
+            # two coding objects of ONE service match M (e.g. a short negative response that
+            # tolerates trailing bytes next to a longer one): which of them is "the"
+            # interpretation is not settled by the statement; odxtools calls it ambiguous
+            must.discard(s["name"])
+            for key in [k for k in must_vals if k[0] == s["name"]]:
+                del must_vals[key]
+            col.count("ambiguous-within-service")
         for g in model["gneg"]:
             # a global negative response applies to a service when M matches it with the echo of
             # the service's (constant) request prefix: then the service has to be reported -
@@ -409,11 +437,82 @@ def run_layer(task: Tuple, col: common.Collector) -> None:
                     "example": own[0][0].hex() if own else ""}, limit=5)
 
 
+def run_prefixless(task: Tuple, col: common.Collector) -> None:
+    """Responses without a constant prefix (the SID constant is listed after a value parameter,
+    or the response starts with the echo of a non-constant request byte) can only be found
+    through the request that triggered them - the one clause judged here: decode_response(own
+    response, own request) reports the service with the response's values."""
+    idx, wseed = task
+    r = random.Random(wseed)
+    rqs, prs, svcs = [], [], []
+    for k in range(r.randrange(2, 5)):
+        sid = r.choice([0x22, 0x2E, 0x31]) if k else 0x22
+        shape = r.choice(["cv", "cvv", "ccv"])
+        rq = build_request(f"rq{k}", shape, [sid, 0x10 + k, 0x90])
+        rqs.append(rq)
+        if r.random() < 0.5:
+            pr = {"name": f"pr{k}", "for": rq["name"], "shape": "pos-sid-listed-late",
+                  "feat": {"shape": "pos"},
+                  "params": [p_value("first_listed", "u8", byte=1),
+                             u8const("rsid", (sid + 0x40) & 0xFF, byte=0), p_value("r1", "u16", byte=2)]}
+        else:
+            pos = 1 if shape != "ccv" else 2
+            pr = {"name": f"pr{k}", "for": rq["name"], "shape": "pos-echo-first",
+                  "feat": {"shape": "pos"},
+                  "params": [{"p": "MATCHING-REQUEST-PARAM", "name": "echo", "req_pos": pos, "len": 1},
+                             u8const("rsid", (sid + 0x40) & 0xFF), p_value("r0", "u8")]}
+        prs.append(pr)
+        svcs.append({"name": f"svc{k}", "request": rq["name"], "pos": [pr["name"]], "neg": []})
+    model = {"kind": "BASE-VARIANT", "name": f"P{idx}", "dobjs": [dict(d) for d in POOL],
+             "requests": rqs, "pos": prs, "neg": [], "gneg": [], "services": svcs}
+    try:
+        ll = codecrun.LoadedLayer(model)
+    except Exception as e:
+        col.fail_inconclusive(f"layer with prefix-less responses does not load: {e}")
+        return
+    by = {o["name"]: o for o in model["dobjs"]}
+    for s in svcs:
+        rq = next(m for m in rqs if m["name"] == s["request"])
+        pr = next(m for m in prs if m["name"] == s["pos"][0])
+        for _ in range(4):
+            k1, e1 = codecrun.ref_encode(ll.ref, rq, codeccompose.good_params(rq["params"], by, r))
+            if k1 != "ok":
+                continue
+            vals = codeccompose.good_params(pr["params"], by, r)
+            k2, e2 = codecrun.ref_encode(ll.ref, pr, vals, e1.pdu)
+            if k2 != "ok":
+                continue
+            o = codecrun.call(ll.layer.decode_response, e2.pdu, e1.pdu)
+            col.ev()
+            col.count("prefixless-responses")
+            col.nontrivial(("prefixless", pr["shape"], rq["shape"], len(svcs)))
+            det = {"layer": model, "message": e2.pdu, "request": e1.pdu, "service": s["name"],
+                   "values": vals}
+            if not o.ok:
+                col.violation(("response-not-found-through-request", pr["shape"]),
+                              dict(det, observed=o.brief()))
+                continue
+            hit = [m for m in o.value if m.service.short_name == s["name"] and
+                   m.coding_object is not None and m.coding_object.short_name == pr["name"]]
+            if not hit:
+                col.violation(("response-not-found-through-request", pr["shape"]),
+                              dict(det, observed=[(m.service.short_name,
+                                                   getattr(m.coding_object, "short_name", None))
+                                                  for m in o.value]))
+            elif not codecrun.requested_in(hit[0].param_dict, vals):
+                col.violation(("response-values-differ", pr["shape"]),
+                              dict(det, observed=hit[0].param_dict))
+
+
 def run(tier: str, col: common.Collector) -> None:
     r = random.Random(common.seed() * 7 + 1)
     specs = gen_specs(tier, r)
     tasks = [(i, s, tier, common.seed() * 1009 + i) for i, s in enumerate(specs)]
     common.pmap(run_layer, tasks, col)
+    common.pmap(run_prefixless, [(i, common.seed() * 77 + i) for i in range(60 if tier == "quick" else 2000)],
+                col)
+    if not col.counters.get("prefixless-responses"):
+        col.fail_inconclusive("monitor counter prefixless-responses stayed at zero")
     col.notes["service_sets"] = len(specs)
     for need in ("layers", "service-groups-checked", "verdicts-with-MAY"):
         if not col.counters.get(need):
